@@ -199,6 +199,7 @@ def cases(c):
                     'cplx': int(rng.integers(0, 2)), 'kind': gen.pick(rng, KINDS), 'i': i})
         if i % 7 == 2 and not out[-1]['cplx']:
             out[-1]['variant'] = gen.NARROW[(i // 7) % len(gen.NARROW)]          # wav / ADC samples in a narrow integer type
+        gen.layout_variant(out[-1], i)
     return out
 
 
